@@ -33,7 +33,7 @@ def run_demo():
         name = f"seeded_demo_{k}"
         # fst-bin demos may need the binary; integration tests of the root crate otherwise
         shutil.copy(d, f"{wt}/tests/{name}.rs")
-        rc, out = sh(f"cargo test --test {name} --offline 2>&1 | tail -40")
+        rc, out = sh(f"cargo test --test {name} --offline -- --test-threads=1 2>&1 | tail -40")
         # cargo test exit code is lost by the pipe: look at the summary
         ok = ("test result: ok" in out) and ("FAILED" not in out) and ("could not compile" not in out)
         os.remove(f"{wt}/tests/{name}.rs")
